@@ -613,6 +613,18 @@ pub fn block_edge_docs(max: usize) -> Vec<Vec<u8>> {
     out
 }
 
+/// number shapes (integer width x fraction x exponent marker x sign, with and without 32 bytes of
+/// input after them) and containers that are empty but not minimal
+pub fn shape_docs() -> Vec<Vec<u8>> {
+    let mut docs: Vec<Vec<u8>> = gen::number_shape_docs().into_iter().map(|s| s.into_bytes()).collect();
+    for e in gen::SPACED_EMPTIES {
+        docs.push(e.as_bytes().to_vec());
+        docs.push(format!("[{e},{{\"a\":{e}}} ,{e}]").into_bytes());
+        docs.push(format!("{{\"a\":{e},\"b\":[{e}, 1]}}").into_bytes());
+    }
+    docs
+}
+
 pub fn families_c10(tier: Tier) -> Vec<Family> {
     let q = tier == Tier::Quick;
     let mut v = vec![];
@@ -629,6 +641,7 @@ pub fn families_c10(tier: Tier) -> Vec<Family> {
         v.push(Family::of_vec(&format!("deep-docs<={}nodes", n), g.docs(n), move |d, ctx| check_get_doc(ctx, d.as_bytes(), false)));
     }
     v.push(Family::of_vec("block-edge-sweep", block_edge_docs(if q { 70 } else { 135 }), |d, ctx| check_get_doc(ctx, d, false)));
+    v.push(Family::of_vec("number-shapes+spaced-empties", shape_docs(), |d, ctx| check_get_doc(ctx, d, false)));
     // corpus documents: a strided selection of their paths
     {
         let docs: Vec<(String, Vec<u8>)> = gen::corpus().into_iter().filter(|(_, d)| d.len() < if q { 700_000 } else { 3 << 20 }).collect();
@@ -659,6 +672,21 @@ pub fn families_c10(tier: Tier) -> Vec<Family> {
 
 fn lv_span(lv: &LazyValue, doc: &[u8]) -> Option<(usize, usize)> {
     span_of(lv.as_raw_str(), doc)
+}
+
+/// everything a caller can read from a lazy value besides its span
+pub fn lv_views(lv: &LazyValue) -> String {
+    format!(
+        "raw={:?} type={:?} str={:?} bool={:?} u64={:?} i64={:?} f64={:?} null={:?}",
+        lv.as_raw_str(),
+        lv.get_type(),
+        lv.as_str().map(|s| s.to_string()),
+        lv.as_bool(),
+        lv.as_u64(),
+        lv.as_i64(),
+        lv.as_f64().map(|f| f.to_bits()),
+        lv.is_null()
+    )
 }
 
 /// all multisets (as ordered tuples, order matters for slot order) of size <= k
@@ -739,6 +767,9 @@ pub fn check_get_many_doc(ctx: &mut Ctx, doc: &[u8], max_paths: usize) {
     // per-path single get
     let singles: Vec<Option<(usize, usize)>> =
         universe.iter().map(|p| refjson::walk(&root, p).map(|n| (n.start, n.end))).collect();
+    // what single-path get lets the caller read for each path (decoded string, number, ...)
+    let single_views: Vec<Option<String>> =
+        ptrs.iter().map(|p| guard(|| sonic_rs::get(doc, p).ok().map(|lv| lv_views(&lv))).ok().flatten()).collect();
     for t in tuples(n, max_paths) {
         let sel: Vec<&Vec<Seg>> = t.iter().map(|i| &universe[*i]).collect();
         if !shape_consistent(&sel) {
@@ -751,9 +782,17 @@ pub fn check_get_many_doc(ctx: &mut Ctx, doc: &[u8], max_paths: usize) {
                     tree.add_path(ptrs[*i].iter());
                 }
                 let r = if unchecked { unsafe { sonic_rs::get_many_unchecked(doc, &tree) } } else { sonic_rs::get_many(doc, &tree) };
-                r.map(|v| v.iter().map(|o| o.as_ref().map(|lv| lv_span(lv, doc))).collect::<Vec<_>>())
+                r.map(|v| v.iter().map(|o| o.as_ref().map(|lv| (lv_span(lv, doc), lv_views(lv)))).collect::<Vec<_>>())
                     .map_err(|e| e.to_string().lines().next().unwrap_or("").to_string())
             });
+            let (r, views) = match r {
+                Ok(Ok(v)) => {
+                    let views: Vec<Option<String>> = v.iter().map(|o| o.as_ref().map(|x| x.1.clone())).collect();
+                    (Ok(Ok(v.into_iter().map(|o| o.map(|x| x.0)).collect::<Vec<_>>())), views)
+                }
+                Ok(Err(e)) => (Ok(Err(e)), vec![]),
+                Err(p) => (Err(p), vec![]),
+            };
             ctx.state();
             ctx.call();
             let name = if unchecked { "get_many_unchecked" } else { "get_many" };
@@ -794,6 +833,16 @@ pub fn check_get_many_doc(ctx: &mut Ctx, doc: &[u8], max_paths: usize) {
                             (e, g) => {
                                 bad = Some(format!("slot {k} ({}): single get gives {:?}, get_many gives {:?}", path_str(&universe[*i]), e, g));
                                 break;
+                            }
+                        }
+                    }
+                    if bad.is_none() {
+                        for (k, (i, w)) in t.iter().zip(views.iter()).enumerate() {
+                            if let (Some(e), Some(g)) = (&single_views[*i], w) {
+                                if e != g {
+                                    bad = Some(format!("slot {k} ({}): single get reads as {e}, the get_many slot reads as {g}", path_str(&universe[*i])));
+                                    break;
+                                }
                             }
                         }
                     }
@@ -922,6 +971,19 @@ pub fn families_c11(tier: Tier) -> Vec<Family> {
         let g = DocGen { leaves: gen::strs(&["1", "\"]\""]), keys: gen::strs(&["\"m\""]), style: gen::COMPACT, allow_dup_keys: false };
         let n = if q { 5 } else { 6 };
         v.push(Family::of_vec(&format!("array-heavy-docs<={}nodes x path-tuples<=2", n), g.docs(n), move |d, ctx| check_get_many_doc(ctx, d.as_bytes(), 2)));
+    }
+    {
+        // leaves whose decoded view differs from their text, upper-case exponents, non-minimal
+        // empty containers
+        let g = DocGen {
+            leaves: gen::strs(&["1.5E3", "\"e\\n\\\"\"", "\"\\u00e9\"", "true", "[ ]", "-0"]),
+            keys: gen::strs(&["\"a\"", "\"k\\\"\""]),
+            style: gen::TIGHTWS,
+            allow_dup_keys: false,
+        };
+        let n = if q { 3 } else { 4 };
+        v.push(Family::of_vec(&format!("escaped-leaves-docs<={}nodes x path-tuples<=2", n), g.docs(n), move |d, ctx| check_get_many_doc(ctx, d.as_bytes(), 2)));
+        v.push(Family::of_vec("number-shapes+spaced-empties x path-tuples<=2", shape_docs(), |d, ctx| check_get_many_doc(ctx, d, 2)));
     }
     // (schema, document) pairs
     {
@@ -1338,6 +1400,7 @@ pub fn families_c12(tier: Tier) -> Vec<Family> {
         }
         v.push(Family::of_vec("length-sweep", docs, |d, ctx| check_iter(ctx, d, false)));
     }
+    v.push(Family::of_vec("number-shapes+spaced-empties", shape_docs(), |d, ctx| check_iter(ctx, d, true)));
     // corpus documents: whole, each container member of the root, and cut at evenly spaced points
     {
         let mut inputs: Vec<Vec<u8>> = vec![];
@@ -1661,6 +1724,13 @@ pub fn families_c14(tier: Tier) -> Vec<Family> {
             check_validating(ctx, &d, std::slice::from_ref(path), false);
         }));
     }
+    // (ii-a) number shapes and non-minimal empty containers, every path of each
+    v.push(Family::of_vec("number-shapes+spaced-empties", shape_docs(), |d, ctx| {
+        if let Ok(root) = refjson::parse_doc(d, RMode::Decode) {
+            let sp: Vec<Vec<Seg>> = refjson::all_paths(&root).into_iter().filter(|p| !p.is_empty()).collect();
+            check_validating(ctx, d, &sp, true);
+        }
+    }));
     // (ii-b) corpus documents cut at evenly spaced points and with one byte replaced there (long
     // inputs: every traversal crosses many SIMD blocks)
     {
